@@ -290,3 +290,114 @@ Proof.
 Qed.
 
 
+
+(* ------------------------------------------------------------------ callbacks: when is one possible *)
+Lemma list_neq_cons {A} (l : list A) a : l <> a :: l.
+Proof. intros H. apply (f_equal (@length A)) in H. simpl in H. lia. Qed.
+Lemma list_neq_cons2 {A} (l : list A) a b : l <> a :: b :: l.
+Proof. intros H. apply (f_equal (@length A)) in H. simpl in H. lia. Qed.
+
+(* the only instruction that calls a handler is the dispatcher's turn instruction, and only for the event
+   in dispatch, a handler of the snapshot whose turn has not come yet and which is registered now *)
+Lemma exec_callback s t i k inp s' h w e x :
+  exec s t i k inp = Some s' -> glog s' = GCb h w e :: x :: glog s ->
+  i = DTurns /\ dcur s = Some (e, w) /\ memN h (dtodo s) = true /\
+  memN h (hset w (handlers s)) = true /\ dtodo s' = remN h (dtodo s) /\ x = GTurn h.
+Proof.
+  intros H Hg. destruct i; crush_exec H; revert Hg; proj; intros Hg;
+    try (exfalso; apply (list_neq_cons2 _ _ _ Hg));
+    try (exfalso; inversion Hg; eapply list_neq_cons; eauto; fail);
+    try (inversion Hg; fail).
+  all: inversion Hg; subst.
+  all: try match goal with H : memN _ (hset _ (hauto _ _)) = true |- _ => rewrite hset_hauto in H end.
+  all: repeat split; auto.
+Qed.
+
+(* ------------------------------------------------------------------ C06: emitter threads *)
+Lemma nth_upd_nth {A} (f : A -> A) : forall l n x, nth_error l n = Some x -> nth_error (upd_nth n f l) n = Some (f x).
+Proof.
+  induction l as [|a l IH]; intros [|n] x H; simpl in *; try discriminate.
+  - inversion H; subst; reflexivity.
+  - apply IH; auto.
+Qed.
+
+Definition em_of (l : label) : option emid :=
+  match l with LECheck e | LEPut e _ | LESkip e _ | LEIdle e | LEExit e => Some e | _ => None end.
+
+(* once its stop flag is set, every own step of an emitter thread strictly decreases em_bound (<= 3) *)
+Lemma emitter_bounded s l s' e m :
+  step s l = Some s' -> em_of l = Some e -> get_em s e = Some m -> estop m = true ->
+  exists m', get_em s' e = Some m' /\ estop m' = true /\ em_bound m' < em_bound m.
+Proof.
+  intros H Hl Hm Hs. destruct l; simpl in Hl; inversion Hl; subst; simpl in H; rewrite Hm in H;
+    destruct (epcs m) eqn:Ep; try discriminate; try rewrite Hs in H;
+    repeat match type of H with context [if ?x then _ else _] => destruct x end; try discriminate;
+    inversion H; subst; clear H; unfold get_em in *; cbn;
+    rewrite (nth_upd_nth _ _ _ _ Hm); eexists; (split; [reflexivity|]); cbn; rewrite ?Ep; split; auto; unfold em_bound; cbn; rewrite ?Ep; lia.
+Qed.
+
+(* a started, not yet exited emitter thread can always take a step: it never waits for the observer lock *)
+Lemma emitter_never_blocked s e m : get_em s e = Some m -> em_running m = true ->
+  exists l s', em_of l = Some e /\ step s l = Some s'.
+Proof.
+  intros Hm Hr. unfold em_running in Hr. destruct (epcs m) eqn:Ep; try discriminate.
+  - exists (LECheck e). simpl. rewrite Hm, Ep. destruct (estop m); eexists; split; reflexivity.
+  - exists (LEIdle e). simpl. rewrite Hm, Ep. eexists; split; reflexivity.
+  - exists (LEExit e). simpl. rewrite Hm, Ep. eexists; split; reflexivity.
+Qed.
+
+Lemma running_not_deadlocked s : existsb em_running (ems s) = true -> deadlocked s = false.
+Proof. intros H. unfold deadlocked, any_enabled. rewrite H. rewrite orb_true_r. reflexivity. Qed.
+
+(* ------------------------------------------------------------------ C05 *)
+Definition covers (r : gev) (h : handler) (w : watch) : Prop :=
+  match r with
+  | GRemoved h' w' => h = h' /\ w = w'
+  | GRemovedW w' => w = w'
+  | GRemovedAll => True
+  | _ => False
+  end.
+
+Lemma no_callback_after_removal s : reachable s ->
+  forall l3 h w e l2 r l1, glog s = l3 ++ GCb h w e :: l2 ++ r :: l1 -> covers r h w -> In (GAdded h w) l2.
+Proof.
+  intros Hs l3 h w e l2 r l1 Hg Hc.
+  pose proof (callbacks_registered s Hs _ _ _ _ _ Hg) as Hreg.
+  eapply reg_after_removal; eauto; destruct r; simpl in Hc; try tauto.
+Qed.
+
+(* the removal events are what the removing calls do, in program order before their Return *)
+Lemma removing_bodies fx h w :
+  In (IRemH h w) (body fx (CRemove h w)) /\ In (IUnsched w) (body fx (CUnschedule w)) /\
+  In IClear (body fx CUnscheduleAll) /\ In IClear (body fx CStop).
+Proof. simpl. tauto. Qed.
+
+(* emitter.join() returns only for an emitter thread that has exited (or was never started) *)
+Lemma join_means_exited s t e k inp s' : exec s t (IEmJoin e) k inp = Some s' ->
+  exists m, get_em s e = Some m /\ (em_started m = false \/ em_exited m = true).
+Proof.
+  simpl. destruct (get_em s e) as [m|]; try discriminate. intros H. exists m. split; auto.
+  destruct (em_started m); auto. destruct (em_exited m); auto. discriminate.
+Qed.
+
+(* unschedule(w) stops and joins the emitter it removed before it returns *)
+Lemma unschedule_joins s t w k s' e :
+  alookup N.eqb w (efw s) = Some e -> amem N.eqb w (handlers s) = true -> memE e (emitters s) = true ->
+  exec s t (IUnsched w) k NoIn = Some s' ->
+  cont s' t = IEmStop e :: IEmJoin e :: IDelWatch w :: k.
+Proof.
+  intros H1 H2 H3. simpl. rewrite H1, H2, H3. intros H. inversion H; subst. destruct t; simpl; auto.
+  unfold cont. simpl.
+  assert (A : forall m, alookup N.eqb n (aset N.eqb n (IEmStop e :: IEmJoin e :: IDelWatch w :: k) m)
+              = Some (IEmStop e :: IEmJoin e :: IDelWatch w :: k)).
+  { induction m as [|[a b] m IH]; simpl; [rewrite N.eqb_refl; auto|].
+    destruct (N.eqb n a) eqn:E; simpl; rewrite ?E, ?N.eqb_refl; auto. }
+  rewrite A. reflexivity.
+Qed.
+
+(* an exited emitter thread takes no further step, in particular it puts nothing *)
+Lemma exited_no_step s l e m : em_of l = Some e -> get_em s e = Some m -> em_exited m = true -> step s l = None.
+Proof.
+  intros Hl Hm He. unfold em_exited in He. destruct (epcs m) eqn:Ep; try discriminate.
+  destruct l; simpl in Hl; inversion Hl; subst; simpl; rewrite Hm, Ep; reflexivity.
+Qed.
